@@ -24,8 +24,7 @@ from elementpath.datatypes import AbstractDateTime, Duration
 from elementpath.xpath_nodes import EtreeElementNode
 
 import xmlschema.names as nm
-from xmlschema.exceptions import XMLSchemaTypeError, XMLSchemaValueError, \
-    XMLResourceParseError
+from xmlschema.exceptions import XMLSchemaValueError, XMLResourceParseError
 from xmlschema.aliases import ElementType, BaseXsdType, SchemaElementType, \
     ModelParticleType, ComponentClassType, DecodeType, DecodedValueType
 from xmlschema.translation import gettext as _
